@@ -37,6 +37,11 @@ class _Budget:
         self.on = True
 
     def _cb(self, code, offset):
+        # only the code under test counts: the package's own functions and the scripts it loads (compiled with
+        # an empty or <...> file name); the drivers' own helper calls would otherwise eat the budget
+        fn = code.co_filename
+        if fn and not (fn.startswith("<") or "yldprolog" in fn):
+            return sys.monitoring.DISABLE
         self.left -= 1
         if self.left < 0:
             self.left = 1 << 60
@@ -261,6 +266,9 @@ def replay_one(scn, rec, opts):
                         b = real.bound_registry()
                         if b:
                             viol = ("bound", "%d variables still bound although no query is suspended" % len(b))
+                    if viol is None and sys.getrecursionlimit() != runner.base_limit:
+                        viol = ("interpreter-state", "the interpreter's recursion limit is %d after this step, it was %d" % (sys.getrecursionlimit(), runner.base_limit))
+                        sys.setrecursionlimit(runner.base_limit)
                     if viol is None:
                         lv = runner.check_live()
                         if lv:
